@@ -150,6 +150,25 @@ func main() {
 			usage()
 		}
 		os.Exit(runCheck(eng, pos[0], *tier, *verif, loadS, start))
+	case "mutant":
+		// govc mutant <patch> <PROP>... : which obligations of these properties fail with the patch applied
+		if len(pos) < 2 {
+			usage()
+		}
+		known := map[string]KnownFinding{}
+		for _, p := range pos[1:] {
+			for _, k := range loadKnown(*verif) {
+				if k.Property == p && k.Status != "fixed" {
+					known[k.Obligation] = k
+				}
+			}
+			mr := applyMutant(eng, p, pos[0], known)
+			st := "MISSED  "
+			if mr.Detected {
+				st = "DETECTED"
+			}
+			fmt.Printf("%s %s %s (%.0fs) %s %s\n", st, p, filepath.Base(filepath.Dir(pos[0]))+"/"+filepath.Base(pos[0]), mr.Seconds, strings.Join(mr.Failed, " | "), mr.Error)
+		}
 	default:
 		usage()
 	}
